@@ -1,7 +1,8 @@
 (* C05 — honest Schnorr / Chaum-Pedersen / plaintext-knowledge / decryption proofs verify. *)
 From Coq Require Import ZArith List.
 From Strand Require Import Base.ZUtil Model.Outcome Model.Codec Model.Backend Model.ZBackend Model.Zkp Model.Exec
-  Proofs.Laws Proofs.ZLaws Proofs.SigmaP Proofs.ZInst Proofs.Corollaries.
+  Proofs.Laws Proofs.ZLaws Proofs.SigmaP Proofs.ZInst Proofs.Corollaries
+  Model.Ristretto Model.RistrettoFast Model.RBackend Proofs.RistrettoGroup.
 Import ListNotations.
 Open Scope Z_scope.
 
@@ -54,3 +55,34 @@ Example C05_nonvacuous :
   let B := ZB K_ref Malachite (mkP 23) in
   schnorr_verify B (b_pow B 4 10) None (schnorr_prove B 10 (b_pow B 4 10) None [1; 2] 3) [1; 2] = true.
 Proof. vm_compute. reflexivity. Qed.
+
+(* the ristretto backend record, WITHOUT any group-law hypothesis (Proofs/RistrettoGroup.v): Schnorr proofs for the
+   default generator, and Schnorr / Chaum-Pedersen proofs for any valid base(s) of order dividing l, verify for
+   every secret, nonce and label. (That a base has order dividing l is proved for the standard generator by kernel
+   evaluation of [l]B; for other points it is the premise [nmul Ln (aff g) = eid].) *)
+Theorem C05_ristretto_schnorr_default : forall (K : Kernel) (PM : PMul) x r label, 0 <= x -> 0 <= r ->
+  schnorr_verify (RB K PM) (b_gpow (RB K PM) x) None
+    (schnorr_prove (RB K PM) x (b_gpow (RB K PM) x) None label r) label = true.
+Proof. exact rb_schnorr_complete_default. Qed.
+Print Assumptions C05_ristretto_schnorr_default.
+
+Theorem C05_ristretto_schnorr : forall (K : Kernel) (PM : PMul) g x r label,
+  valid g -> Edwards.nmul Fp f0 f1 fa fm fs fd dF Ln (aff g) = Edwards.eid Fp f0 f1 -> 0 <= x -> 0 <= r ->
+  schnorr_verify (RB K PM) (b_pow (RB K PM) g x) (Some g)
+    (schnorr_prove (RB K PM) x (b_pow (RB K PM) g x) (Some g) label r) label = true.
+Proof. exact rb_schnorr_complete. Qed.
+Print Assumptions C05_ristretto_schnorr.
+
+Theorem C05_ristretto_chaum_pedersen : forall (K : Kernel) (PM : PMul) g1 g2 x r label,
+  valid g1 -> valid g2 ->
+  Edwards.nmul Fp f0 f1 fa fm fs fd dF Ln (aff g1) = Edwards.eid Fp f0 f1 ->
+  Edwards.nmul Fp f0 f1 fa fm fs fd dF Ln (aff g2) = Edwards.eid Fp f0 f1 -> 0 <= x -> 0 <= r ->
+  cp_verify (RB K PM) (b_pow (RB K PM) g1 x) (b_pow (RB K PM) g2 x) (Some g1) g2
+    (cp_prove (RB K PM) x (b_pow (RB K PM) g1 x) (b_pow (RB K PM) g2 x) (Some g1) g2 label r) label = true.
+Proof. exact rb_cp_complete. Qed.
+Print Assumptions C05_ristretto_chaum_pedersen.
+
+(* non-vacuity: the standard generator meets both premises *)
+Example C05_ristretto_nonvacuous :
+  valid (pt_base K_ref) /\ Edwards.nmul Fp f0 f1 fa fm fs fd dF Ln (aff (pt_base K_ref)) = Edwards.eid Fp f0 f1.
+Proof. exact (conj (valid_base K_ref) (base_order K_ref)). Qed.
